@@ -220,7 +220,7 @@ func (ex *Exec) invoke(fn *ssa.Function, args []Value, env []Value, site ssa.Ins
 		}
 	}
 	ex.depth++
-	if ex.depth > ex.eng.maxDepth {
+	if ex.depth > ex.maxDepth {
 		panic(pathEnd{kind: "budget", msg: "call depth exceeded in " + fn.String()})
 	}
 	meta := ex.eng.metaOf(fn)
@@ -452,7 +452,7 @@ func (ex *Exec) exec(fr *frame, ins ssa.Instruction) {
 		s := fr.get(ins.X).(Struct)
 		fr.set(ins, copyVal(s[ins.Field]))
 	case *ssa.IndexAddr:
-		fr.set(ins, ex.indexAddr(fr.get(ins.X), fr.get(ins.Index), ins.X.Type()))
+		fr.set(ins, ex.indexAddr(fr.get(ins.X), fr.get(ins.Index), ins.Index.Type()))
 	case *ssa.Index:
 		x := fr.get(ins.X)
 		idx := fr.get(ins.Index)
@@ -642,31 +642,50 @@ func (ex *Exec) concreteIndex(idx Value, t types.Type, n int) int {
 		bits, signed, _ := intKind(t)
 		// out of range feasible?
 		var oob *Term
-		nn := ex.ts.Const(uint64(n), bits)
-		if signed {
-			oob = ex.ts.Or(ex.ts.Bin(OpSLt, i, ex.ts.Const(0, bits)), ex.ts.Not(ex.ts.Bin(OpSLt, i, nn)))
-		} else {
-			oob = ex.ts.Not(ex.ts.Bin(OpULt, i, nn))
+		// the upper comparison is vacuous when n does not fit the index type
+		upperVacuous := false
+		if signed && bits < 64 && uint64(n) >= uint64(1)<<uint(bits-1) {
+			upperVacuous = true
+		}
+		if !signed && bits < 64 && uint64(n) >= uint64(1)<<uint(bits) {
+			upperVacuous = true
+		}
+		switch {
+		case signed && upperVacuous:
+			oob = ex.ts.Bin(OpSLt, i, ex.ts.Const(0, bits))
+		case signed:
+			oob = ex.ts.Or(ex.ts.Bin(OpSLt, i, ex.ts.Const(0, bits)), ex.ts.Not(ex.ts.Bin(OpSLt, i, ex.ts.Const(uint64(n), bits))))
+		case upperVacuous:
+			return int(ex.concretize(i))
+		default:
+			oob = ex.ts.Not(ex.ts.Bin(OpULt, i, ex.ts.Const(uint64(n), bits)))
 		}
 		if ex.decide(oob) {
-			panic(ex.rtPanic(fmt.Sprintf("index out of range [symbolic] with length %d", n)))
+			v := ex.concretize(i)
+			if signed && bits < 64 && v&(uint64(1)<<uint(bits-1)) != 0 {
+				v |= ^uint64(0) << uint(bits)
+			}
+			if signed && int64(v) < 0 {
+				panic(ex.rtPanic(fmt.Sprintf("index out of range [%d]", int64(v))))
+			}
+			panic(ex.rtPanic(fmt.Sprintf("index out of range [%d] with length %d", v, n)))
 		}
 		return int(ex.concretize(i))
 	}
 	panic(ex.unsupported(fmt.Sprintf("index of %T", idx)))
 }
 
-func (ex *Exec) indexAddr(x Value, idx Value, xt types.Type) Value {
+func (ex *Exec) indexAddr(x Value, idx Value, it types.Type) Value {
 	switch x := x.(type) {
 	case Slice:
-		i := ex.concreteIndex(idx, types.Typ[types.Int], len(x))
+		i := ex.concreteIndex(idx, it, len(x))
 		return Ptr(&x[i])
 	case Ptr:
 		if x == nil {
 			panic(ex.rtPanic("invalid memory address or nil pointer dereference"))
 		}
 		a := (*x).(Array)
-		i := ex.concreteIndex(idx, types.Typ[types.Int], len(a))
+		i := ex.concreteIndex(idx, it, len(a))
 		return Ptr(&a[i])
 	}
 	panic(ex.unsupported(fmt.Sprintf("indexaddr of %T", x)))
